@@ -340,6 +340,9 @@ func genCaseKind(r *fw.Rand, kind int) fw.Case {
 	for i := 0; i < np; i++ {
 		field := []string{"n", "v"}[r.Intn(2)]
 		t := int64(r.Intn(int(span)))
+		if r.Intn(5) == 0 {
+			t = t / 32 * 32 // the first instant of a shard group
+		}
 		h := hosts[r.Intn(len(hosts))]
 		if kind == 1 && i < len(hosts) {
 			h = hosts[i] // every series has a point
@@ -375,6 +378,12 @@ func genCaseKind(r *fw.Rand, kind int) fw.Case {
 		}
 		lo := int64(r.Intn(int(span)/2+1)) - 5
 		hi := lo + int64(r.Intn(int(span))) + 1
+		if r.Intn(3) == 0 && hi/32*32 > lo {
+			hi = hi / 32 * 32 // the range ends on the first instant of a shard group
+		}
+		if r.Intn(4) == 0 && lo > 0 {
+			lo = lo / 32 * 32
+		}
 		kv := []string{"fn=" + fn, fmt.Sprintf("lo=%d", lo), fmt.Sprintf("hi=%d", hi)}
 		if r.Intn(4) == 0 {
 			kv = append(kv, "host="+hosts[r.Intn(len(hosts))])
